@@ -6,11 +6,84 @@ K = f"{F}::simplify_chained_calls"
 
 
 def register(w):
+    A = "func_adl/ast/call_stack.py::argument_stack"
+    C.register_class(w, {
+        "key": A,
+        "state": {},
+        "properties": ["C18"],
+    })
+    # the stack only ever holds what define_name was given: with the two contracts below every
+    # stored replacement is a well-formed expression of query shape (class invariant of the
+    # simplifier, whose methods are the only writers)
+    C.register(w, {
+        "key": f"{A}.define_name",
+        "self": A,
+        "params": {"name": "py", "val": "py"},
+        "requires": ["good(val)"],
+        "ensures": [],
+        "ret": "none",
+        "abstract": True, "trusted": True,
+        "assumes": ["argument_stack (func_adl/ast/call_stack.py, 60 lines: a list of dicts) is not "
+                    "under contract: lookup_name returns its default or a value given to "
+                    "define_name earlier"],
+        "properties": ["C18"],
+    })
+    C.register(w, {
+        "key": f"{A}.lookup_name",
+        "self": A,
+        "params": {"name": "py", "default": "py"},
+        "ensures": ["implies(good(default), good(result))"],
+        "abstract": True, "trusted": True,
+        "properties": ["C18"],
+    })
+    C.register_class(w, {
+        "key": "func_adl/ast/func_adl_ast_utils.py::FuncADLNodeTransformer",
+        "base": "NodeTransformer",
+        "state": {},
+        "properties": ["C18"],
+    })
+    C.register_class(w, {
+        "key": "func_adl/ast/call_stack.py::stack_frame",
+        "state": {},
+        "ctor_any_args": True,
+        # push on enter / pop on exit of the argument stack: frames are balanced, and the only
+        # property the contracts use (every stored value is good) is independent of the frames
+        "with_model": "noop",
+        "properties": ["C18"],
+    })
     C.register_class(w, {
         "key": K,
         "base": "NodeTransformer",
-        "state": {},
+        "base_key": "func_adl/ast/func_adl_ast_utils.py::FuncADLNodeTransformer",
+        "state": {"_arg_stack": f"obj:{A}"},
+        # the visitor's induction hypothesis (C18, partial correctness): on a well-formed node of
+        # query shape, visit returns a well-formed node of query shape and of the same kind, or
+        # raises the dedicated index error
+        "visit_requires": ["wf(node)", "qs(node)"],
+        "visit_raises": {"FuncADLIndexError": "any"},
+        "visit_ensures": ["wf(result)", "qs(result)", "same_kind(node, result)", "is_node(result)"],
+        # list form of the hypothesis, for [self.visit(a) for a in exprs]
+        "visit_requires_list": ["wf_exprs(nodes)", "all_list(qs, nodes)"],
+        "visit_list_ensures": ["len(result) == len(nodes)", "wf_exprs(result)",
+                               "all_list(qs, result)"],
+        "generic_requires": ["wf(node)", "qs(node)"],
+        "generic_ensures": ["wf(result)", "qs(result)", "same_kind(node, result)",
+                            "is_node(result)"],
+        "assumes": ["generic_visit of a well-formed node of query shape whose children are "
+                    "replaced by visit results satisfying the hypothesis is again well-formed and "
+                    "of query shape (the shape constrains only Select/SelectMany/Where/First calls, "
+                    "which are never visited generically with a changed callee)"],
         "properties": ["C18", "C14"],
+    })
+    C.register(w, {
+        "key": f"{K}.visit_Name",
+        "self": K,
+        "params": {"name_node": "py"},
+        "requires": ["isinstance(name_node, ast.Name)", "wf(name_node)"],
+        "raises": {},
+        "ensures": ["good(result)"],
+        "modifies": [],
+        "properties": ["C18"],
     })
     # (t1, t2, ...)[n]: the element for a constant in-range index (negative ones count from the
     # end), the dedicated error beyond the end, the subscript itself for every other selector
@@ -24,7 +97,8 @@ def register(w):
         "raises_iff": {"FuncADLIndexError": "int_const(s) and s.value >= len(v.elts)"},
         "ensures": [
             "implies(int_const(s) and s.value >= -len(v.elts), same(result, seq_pick(v.elts, s.value)))",
-            "implies(not (int_const(s) and s.value >= -len(v.elts)), same(result, ast.Subscript(v, s)))"],
+            "implies(not (int_const(s) and s.value >= -len(v.elts)), same(result, ast.Subscript(v, s)))",
+            "implies(good(v) and good(s), good(result))"],
         "modifies": [],
         "properties": ["C18", "C14"],
     })
@@ -38,7 +112,8 @@ def register(w):
         "raises_iff": {"FuncADLIndexError": "int_const(s) and s.value >= len(v.elts)"},
         "ensures": [
             "implies(int_const(s) and s.value >= -len(v.elts), same(result, seq_pick(v.elts, s.value)))",
-            "implies(not (int_const(s) and s.value >= -len(v.elts)), same(result, ast.Subscript(v, s)))"],
+            "implies(not (int_const(s) and s.value >= -len(v.elts)), same(result, ast.Subscript(v, s)))",
+            "implies(good(v) and good(s), good(result))"],
         "modifies": [],
         "properties": ["C18", "C14"],
     })
@@ -50,7 +125,8 @@ def register(w):
         "requires": ["isinstance(v, ast.Dict)", "wf(v)", "len(v.keys) == len(v.values)"],
         "raises": {},
         "ensures": ["same(result, dict_lookup(v, s))",
-                    "iff(result is None, not dict_resolves(v, s))"],
+                    "iff(result is None, not dict_resolves(v, s))",
+                    "implies(good(v) and result is not None, good(result))"],
         "modifies": [],
         "loops": {0: {"invariant": ["not key_has(_done, s)"],
                       "hints": ["lem_kh(_done, _rest, s)", "lem_ki(_done, _rest, s)",
@@ -67,11 +143,131 @@ def register(w):
         "raises": {},
         "ensures": [
             "implies(key_const(s) and dict_resolves(v, s.value), same(result, dict_lookup(v, s.value)))",
-            "implies(not (key_const(s) and dict_resolves(v, s.value)), same(result, ast.Subscript(v, s)))"],
+            "implies(not (key_const(s) and dict_resolves(v, s.value)), same(result, ast.Subscript(v, s)))",
+            "implies(good(v) and good(s), good(result))"],
         "modifies": [],
         "properties": ["C18", "C14"],
     })
 
+    # ---- projections through the visitor (induction hypothesis = the class contract) ----------
+    for m, par in (("visit_Subscript_Of_First", {"first": "py", "s": "py"}),
+                   ("visit_Attribute_Of_First", {"first": "py", "attr": "str"})):
+        C.register(w, {
+            "key": f"{K}.{m}",
+            "self": K,
+            "params": par,
+            "requires": ["good(first)"] + (["good(s)"] if "s" in par else []),
+            "raises": {"FuncADLIndexError": "any"},
+            "ensures": ["good(result)"],
+            "modifies": ["*"],
+            "properties": ["C18", "C14"],
+        })
+    C.register(w, {
+        "key": f"{K}.visit_Subscript",
+        "self": K,
+        "params": {"node": "py"},
+        "requires": ["isinstance(node, ast.Subscript)", "wf(node)", "qs(node)"],
+        "raises": {"FuncADLIndexError": "any"},
+        "ensures": ["good(result)"],
+        "modifies": ["*"],
+        "properties": ["C18", "C14"],
+    })
+    C.register(w, {
+        "key": f"{K}.visit_Attribute",
+        "self": K,
+        "params": {"node": "py"},
+        "requires": ["isinstance(node, ast.Attribute)", "wf(node)", "qs(node)"],
+        "raises": {"FuncADLIndexError": "any"},
+        "ensures": ["good(result)"],
+        "modifies": ["*"], "facts_fuel": 6,
+        "properties": ["C18", "C14"],
+    })
+    # ---- the nine fusion rules and their dispatchers: shape safety (C18) ----------------------
+    def opcall(x, name):
+        return [f"isinstance({x}, ast.Call)", f"good({x})", f"isinstance({x}.func, ast.Name)",
+                f"{x}.func.id == '{name}'"]
+    rules = [("visit_Select_of_Select", "parent", "Select", "selection"),
+             ("visit_Select_of_SelectMany", "parent", "SelectMany", "selection"),
+             ("visit_SelectMany_of_Select", "parent_select", "Select", "selection"),
+             ("visit_SelectMany_of_SelectMany", "parent", "SelectMany", "selection"),
+             ("visit_Where_of_Where", "parent", "Where", "filter"),
+             ("visit_Where_of_Select", "parent", "Select", "filter"),
+             ("visit_Where_of_SelectMany", "parent", "SelectMany", "filter")]
+    for m, pname, op, lname in rules:
+        C.register(w, {
+            "key": f"{K}.{m}",
+            "self": K,
+            "params": {pname: "py", lname: "py"},
+            "requires": opcall(pname, op) + [f"op_lambda({lname})", f"good({lname})"],
+            "raises": {"FuncADLIndexError": "any"},
+            "ensures": ["good(result)"],
+            "modifies": ["*"], "facts_fuel": 5,
+            "properties": ["C18"],
+        })
+    for op in ("Select", "SelectMany", "Where"):
+        C.register(w, {
+            "key": f"{K}.call_{op}",
+            "self": K,
+            "params": {"node": "py", "args": "list"},
+            "requires": opcall("node", op) + ["same(args, node.args)"],
+            "raises": {"FuncADLIndexError": "any"},
+            "ensures": ["good(result)"],
+            "modifies": ["*"], "facts_fuel": 5,
+            "properties": ["C18"],
+        })
+    C.register(w, {
+        "key": f"{K}.select_method_call_on_first",
+        "self": K,
+        "params": {"node": "py"},
+        "requires": ["isinstance(node, ast.Call)", "good(node)",
+                     "isinstance(node.func, ast.Attribute)", "isinstance(node.func.value, ast.Call)",
+                     "isinstance(node.func.value.func, ast.Name)",
+                     "node.func.value.func.id == 'First'"],
+        "raises": {"FuncADLIndexError": "any"},
+        "ensures": ["good(result)"],
+        "modifies": ["*"], "facts_fuel": 6,
+        "properties": ["C18", "C14"],
+    })
+    C.register(w, {
+        "key": f"{K}.visit_Call",
+        "self": K,
+        "params": {"call_node": "py"},
+        "requires": ["isinstance(call_node, ast.Call)", "wf(call_node)", "qs(call_node)"],
+        "raises": {"FuncADLIndexError": "any"},
+        "ensures": ["good(result)"],
+        # the remaining parameters are well-formed `arg` nodes (grammar of arguments.args)
+        "loops": {0: {"invariant": ["wf(ast.arguments([], _rest, None, [], [], None, []))"]}},
+        "modifies": ["*"], "facts_fuel": 6,
+        "properties": ["C18", "C14"],
+    })
+    # the inherited FuncADLNodeTransformer.visit_Call (dispatch to call_<name>), in this class
+    C.register(w, {
+        "key": f"{K}.super.visit_Call",
+        "source": "func_adl/ast/func_adl_ast_utils.py::FuncADLNodeTransformer.visit_Call",
+        "self": K,
+        "method": True,
+        "params": {"node": "py"},
+        "requires": ["isinstance(node, ast.Call)", "wf(node)", "qs(node)"],
+        "raises": {"FuncADLIndexError": "any"},
+        "ensures": ["good(result)"],
+        "modifies": ["*"], "facts_fuel": 6,
+        "properties": ["C18", "C14"],
+    })
+    C.register(w, {
+        "key": f"{K}.visit_Lambda",
+        "self": K,
+        "params": {"node": "py"},
+        "requires": ["isinstance(node, ast.Lambda)", "wf(node)", "qs(node)"],
+        "raises": {"FuncADLIndexError": "any"},
+        "ensures": ["good(result)", "same_kind(node, result)"],
+        "abstract": True, "trusted": True,
+        "assumes": ["simplify_chained_calls.visit_Lambda (binder handling: renames parameters in "
+                    "place through lists aliased with a deep copy of the argument node, walks the "
+                    "argument stack's private frames) is outside the engine's term view: its "
+                    "contract `a Lambda of query shape with the same parameters count` is ASSUMED; "
+                    "its behaviour is exercised by the bounded checks of C02 / C18"],
+        "properties": ["C18"],
+    })
     # ---- term builders used by the fusion rules ---------------------------------------------
     C.register(w, {
         "key": f"{F}::make_Select",
@@ -81,6 +277,9 @@ def register(w):
         "ensures": ["implies(is_identity_lambda(selection), same(result, source))",
                     "implies(not is_identity_lambda(selection), "
                     "same(result, ast.Call(ast.Name('Select'), [source, selection], [])))"],
+        "cases": [("is_identity_lambda(selection)", "source"),
+                  ("not is_identity_lambda(selection)",
+                   "ast.Call(ast.Name('Select'), [source, selection], [])")],
         "modifies": [],
         "properties": ["C18", "C14", "C02"],
     })
@@ -124,6 +323,7 @@ def register(w):
         "params": {"a": "py"},
         "requires": ["isinstance(a, ast.Lambda)", "good(a)"],
         "ensures": ["isinstance(result, ast.Lambda)", "good(result)",
+                    "isinstance(result.args, ast.arguments)",
                     "len(result.args.args) == len(a.args.args)"],
         "fresh": "deep",
         "abstract": True, "trusted": True,
@@ -138,7 +338,8 @@ def register(w):
         "requires": ["isinstance(ast_g, ast.Lambda)", "isinstance(ast_f, ast.Lambda)",
                      "good(ast_g)", "good(ast_f)"],
         "raises": {},
-        "ensures": ["isinstance(result, ast.Lambda)", "len(result.args.args) == 1", "good(result)"],
+        "ensures": ["isinstance(result, ast.Lambda)", "good(result)",
+                    "isinstance(result.args, ast.arguments)", "len(result.args.args) == 1"],
         "modifies": [],
         "properties": ["C18", "C14"],
     })
